@@ -4,7 +4,10 @@ package entropy
 
 import (
 	"errors"
+	"fmt"
 	"io"
+	"os"
+	"syscall"
 )
 
 // Event kinds.
@@ -76,16 +79,38 @@ func NewDevice(s Script) *Device {
 	return &Device{S: s, Fired: map[string]int{}, Cur: func() int { return 0 }, empty: map[int]int{}}
 }
 
+// tempErr looks like a transient network/system error.
+type tempErr struct{}
+
+func (tempErr) Error() string   { return "entropy: resource temporarily unavailable" }
+func (tempErr) Temporary() bool { return true }
+func (tempErr) Timeout() bool   { return true }
+
 func errOf(name string) error {
 	switch name {
 	case "eof":
 		return io.EOF
 	case "ueof":
 		return io.ErrUnexpectedEOF
+	case "wrapped-eof":
+		return fmt.Errorf("entropy: read /dev/urandom: %w", io.EOF)
+	case "temporary":
+		return tempErr{}
+	case "eintr":
+		return syscall.EINTR
+	case "eagain":
+		return syscall.EAGAIN
+	case "patherror":
+		return &os.PathError{Op: "read", Path: "/dev/urandom", Err: syscall.EIO}
+	case "noprogress":
+		return io.ErrNoProgress
 	default:
 		return ErrInjected
 	}
 }
+
+// ErrKinds lists the error kinds a script may inject.
+var ErrKinds = []string{"eof", "ueof", "injected", "wrapped-eof", "temporary", "eintr", "eagain", "patherror", "noprogress"}
 
 func (d *Device) playback(p []byte) (int, error) {
 	task := d.Cur()
